@@ -325,6 +325,9 @@ def handleCg (op : String) (j : Json) : Except String Json := do
           let xiff ← (← getA o "xiff").toList.mapM (fun b => b.getBool?)
           reg := reg.sample (← getN o "inst") inp xiff
           outs := outs.push Json.null
+        else if k == "rename" then
+          reg := reg.rename (← getN o "inst") (← getS o "name")
+          outs := outs.push Json.null
         else if k == "state" then
           outs := outs.push (Json.mkObj [
             ("types", Json.arr (reg.types.map (fun t => Json.mkObj [("name", Json.str t.name), ("st", jCgState t.shape t.st)])).toArray),
